@@ -89,8 +89,9 @@ fn('dsplib::corr', CO, serves=['C16', 'C05'], pure=True, extra_env=ENV,
 
 fn('dsplib::(anon)::_spearman_corr', CO, serves=['C16', 'C05'], pure=True, extra_env=ENV,
    requires=[('sizes', 'And(x.len == y.len, x.len >= 1)')],
-   ensures=[('pearson_of_ranks', 'exists_w(lambda A, B: result == pearson(A, B, x.len), x_rank, y_rank)')], verify=False, trusted=True,
-   notes='assumed at the call site in corr(): Spearman = Pearson on the rank vectors (vector<int> -> arr_real conversion not lowered)')
+   ghost={'RX': 'x', 'RY': 'y'}, ghost_on=[('call:_pearson_corr', None, {'RX': 'arg0', 'RY': 'arg1'})],
+   ensures=[('pearson_of_ranks', 'And(RX.len == x.len, RY.len == x.len, result == pearson(data(RX), data(RY), x.len))'),
+            ('local:rank_vectors', 'exists_w(lambda A, B: forall(lambda k: Implies(And(0 <= k, k < x.len), And(RX[k] == ToReal(A[k]), RY[k] == ToReal(B[k])))), x_rank, y_rank)')])
 
 # ---------------------------------------------------------------------------------------------------
 # running median: the window is kept as a ring (_d) and as a sorted copy (_s)
